@@ -240,7 +240,12 @@ package nsqd
 //@        getTopicCalls, gotTopic, gotTopicName, gotTopicAuthSeq, gotTopicAuthOK,
 //@        dqCalls, mapstore(map[MessageID]*Message), mapstore(map[MessageID]*pqueue.Item), Message.index, elems(*Message), elems(*pqueue.Item),
 //@        Topic.paused, Channel.paused, Channel.clients, mapstore(map[int64]Consumer), chanstore(int), kConsPaused, kConsUnpaused, kLastCons,
-//@        gTopicPauseCalls, gTopicPauseTopic, gTopicPauseVal, gChanPauseCalls, gChanPauseChan, gChanPauseVal
+//@        gTopicPauseCalls, gTopicPauseTopic, gTopicPauseVal, gChanPauseCalls, gChanPauseChan, gChanPauseVal, r5ILoads
+//   (round 5, area I) the call is recorded for the start-up order contract of apps/nsqd (ghosts: zz_contracts_r5I_verif.go)
+//@   onreturn r5ILoads := r5ILoads + 1
+//@   onreturn r5ILoadOf := n
+//@   onreturn r5ILoadErr := result
+//@   onreturn r5ILoadSawPersists := jPersistCalls
 //@   loop 0
 //@     invariant[loading] n.isLoading == 1
 //@     invariant[entry-replayed] rangeindex >= 0 && rangeindex < len(m.Topics) && validName(m.Topics[rangeindex].Name) ==>
@@ -397,6 +402,9 @@ package nsqd
 //   NSQD lock is held has been closed (Topic.Close; set ghost r3aTopicClosedSet of zz_contracts_kchannel_verif.go)
 //@   ensures[every-topic-closed] old(n.isExiting) == 0 ==> (forall k string :: {atunlock(n.topicMap[k])} atunlock(has(n.topicMap, k)) ==> setin(r3aTopicClosedSet, atunlock(n.topicMap[k])))
 //@   ensures[second-call-closes-nothing] old(n.isExiting) != 0 ==> kTopicFlushes == old(kTopicFlushes) && kBqCloses == old(kBqCloses)
+//   (round 5, area I) the call is recorded for the shutdown contract of apps/nsqd (program.Stop)
+//@   onreturn r5IExits := r5IExits + 1
+//@   onreturn r5IExitOf := n
 //@   loop 0
 //@     invariant[first] old(n.isExiting) == 0
 //@     invariant[topics-kept] n.topicMap == atlock(n.topicMap) && (forall k string :: {n.topicMap[k]} (has(n.topicMap, k) <==> atlock(has(n.topicMap, k))) && n.topicMap[k] == atlock(n.topicMap[k]))
